@@ -103,6 +103,7 @@ type variantSpec struct {
 	ProtoOrder []string `json:"proto_file_order"`
 	Subset     bool     `json:"subset"`
 	Hostname   string   `json:"hostname,omitempty"` // run in a private UTS namespace with this host name
+	Procs      int      `json:"gomaxprocs,omitempty"`
 }
 
 type result struct {
@@ -199,7 +200,7 @@ func execVariant(c *simrun.Ctx, base *pluginpb.CodeGeneratorRequest, vs *variant
 		sb, _ := json.Marshal(sp)
 		os.WriteFile(specFile, sb, 0o644)
 		cmd = &exec.Cmd{Path: childBin, Args: []string{vs.Argv0, "-test.run=^TestChild$", "-test.count=1"}, Dir: cwd,
-			Env: append(env, "VERIFSIM_SPEC="+specFile, "GODEBUG=asynctimerchan=0", "GOMAXPROCS=2")}
+			Env: append(env, "VERIFSIM_SPEC="+specFile, "GODEBUG=asynctimerchan=0", fmt.Sprintf("GOMAXPROCS=%d", procsOf(vs)))}
 		cmd.Stderr = &stderr
 		cmd.Stdout = &stderr
 	} else {
@@ -209,7 +210,7 @@ func execVariant(c *simrun.Ctx, base *pluginpb.CodeGeneratorRequest, vs *variant
 			return nil
 		}
 		defer in.Close()
-		cmd = &exec.Cmd{Path: nativeBin, Args: []string{vs.Argv0}, Dir: cwd, Env: append(env, "GOMAXPROCS=2")}
+		cmd = &exec.Cmd{Path: nativeBin, Args: []string{vs.Argv0}, Dir: cwd, Env: append(env, fmt.Sprintf("GOMAXPROCS=%d", procsOf(vs)))}
 		cmd.Stdin = in
 		cmd.Stdout = &nativeOut
 		cmd.Stderr = &stderr
@@ -292,6 +293,13 @@ func execVariant(c *simrun.Ctx, base *pluginpb.CodeGeneratorRequest, vs *variant
 	}
 	sort.Strings(res.Names)
 	return res
+}
+
+func procsOf(vs *variantSpec) int {
+	if vs.Procs > 0 {
+		return vs.Procs
+	}
+	return 2
 }
 
 func tailStr(s string, n int) string {
@@ -424,6 +432,10 @@ func run(c *simrun.Ctx) *simrun.Violation {
 			if unshareOK && t.Chance("hostname", 1, 4) {
 				vs.Hostname = []string{"buildhost-17", "ci-runner.internal.example"}[t.Draw("hostname-which", 2)]
 				st.Add("fault_hostname_changed", 1)
+			}
+			if g := t.Draw("gomaxprocs", 4); g > 0 {
+				vs.Procs = []int{0, 1, 4, 16}[g]
+				st.Add("fault_gomaxprocs_changed", 1)
 			}
 			if a := t.Draw("argv0", 3); a > 0 {
 				vs.Argv0 = []string{"", "/opt/tools/bin/protoc-gen-go-pulsar", "./x"}[a]
